@@ -1053,6 +1053,26 @@ class Ctx:
                 out.append((bb, s, src, dst))
         return out
 
+    def pspec(self, unit, k):
+        """origin specs naming the k-th parameter (1-based, `self` = 1) of a function, valid in the function body and in
+        its async-block / closure bodies; the parameter's *current* name is read from the facts, so a rename does not
+        change the rule"""
+        r = unit.root
+        if not (1 <= k <= r.argc):
+            raise AnchorMissing(f"{unit.q} has no parameter {k}")
+        nm = r.local_name(k)
+        out = [f"param:{k}"]
+        if nm:
+            out += [f"upvar:{nm}", f"local:{nm}"]
+        return out
+
+    def same_local(self, body, a, b):
+        """do operands a and b denote (a reference to / a move of) the same named local?"""
+        o = Origins(body, 0)
+        la = {v for k, v in o.atoms(a) if k == "local"}
+        lb = {v for k, v in o.atoms(b) if k == "local"}
+        return bool(la & lb)
+
     def expect_sites(self, oid, sites, exactly=None, at_least=None, at_most=None, what="site", detail=""):
         n = len(sites)
         ok = True
